@@ -69,7 +69,7 @@ Lemma t1_step w i :
   forallb (t1_event_b (target w) i) (map ev_of (b_evs (model_obs_step w i))) = true.
 Proof.
   rewrite model_obs_step_evs, map_map.
-  destruct i; cbn [step]; try reflexivity.
+  destruct i; cbn [step]; rewrite ?on_about_to_finish_evs, ?on_source_setup_evs; try reflexivity.
   - destruct from_playbin; [|reflexivity]. unfold on_state_changed.
     destruct n, p; cbn; try reflexivity; destruct (target w); cbn; reflexivity.
   - unfold on_buffering. destruct (rank (target w) <? rank PAUSED); [reflexivity|].
@@ -105,14 +105,20 @@ Proof.
   cbn [step]. unfold on_tag. destruct (pending_tags w); [reflexivity|congruence].
 Qed.
 
-Lemma t4a_model : forall ins w, t4a_b (is_some (pending_tags w)) ins (model_obs w ins) = true.
+Lemma t4a_model : forall ins w,
+  t4a_b (atf_cb (cfg w)) (is_some (pending_tags w)) ins (model_obs w ins) = true.
 Proof.
   induction ins as [|i t IH]; intros w; [reflexivity|].
   cbn [model_obs t4a_b].
   assert (Nx : is_some (pending_tags (fst (step w i))) =
-               match i with SetUri _ _ => true | StreamStart => false | _ => is_some (pending_tags w) end).
-  { rewrite step_pending_tags. destruct i; try reflexivity. destruct (pending_tags w); reflexivity. }
-  rewrite <- Nx, IH, andb_true_r.
+               match sets_uri (atf_cb (cfg w)) i with
+               | Some _ => true
+               | None => match i with StreamStart => false | _ => is_some (pending_tags w) end
+               end).
+  { rewrite step_pending_tags. unfold upcoming_after.
+    destruct (sets_uri (atf_cb (cfg w)) i); [reflexivity|].
+    destruct i; try reflexivity. destruct (pending_tags w); reflexivity. }
+  rewrite <- Nx, <- step_atf_cb, IH, andb_true_r.
   destruct (pending_tags w) as [pt|] eqn:P; cbn [is_some andb].
   - destruct i; try (rewrite has_tags_model, withheld_step; [reflexivity|congruence|discriminate]).
     reflexivity.
@@ -126,5 +132,7 @@ Proof.
   rewrite obs_events_model, stopped_followed_norm, announced_norm.
   rewrite stopped_then_stream_none, stream_announced_once, list_eqb_refl.
   change NULL with (target init). rewrite t5_model by reflexivity.
-  rewrite t1_model. change false with (is_some (pending_tags init)). rewrite t4a_model. reflexivity.
+  rewrite t1_model.
+  pose proof (t4a_model ins init) as T4. cbn [init cfg atf_cb pending_tags is_some] in T4.
+  rewrite T4. reflexivity.
 Qed.
